@@ -35,3 +35,16 @@ Definition opts_failing_ids : list (str * str * str * str) :=
   Eval vm_compute in map slot_id (filter (fun sd => negb (opts_check sd)) root_docs).
 Lemma opts_failing_ids_spec : map slot_id (filter (fun sd => negb (opts_check sd)) root_docs) = opts_failing_ids.
 Proof. vm_compute. reflexivity. Qed.
+
+(* ---- purity of printing without separate_complex_types (C12): the dictionary after the call equals the argument *)
+Definition print_pure (sd : slotdoc) : bool :=
+  match Api.loads false false (sd_text sd) with
+  | Ok d => match pprint default_opts d with
+            | Ok (_, d') => value_eqb d d'
+            | Err _ => true
+            end
+  | Err _ => true
+  end.
+
+Lemma print_pure_all : forallb print_pure root_docs = true.
+Proof. vm_compute. reflexivity. Qed.
